@@ -14,18 +14,18 @@ type Ext struct {
 
 // Hello is a ClientHello in structured form (RFC 8446 4.1.2).
 type Hello struct {
-	Version uint16
-	Random  []byte // 32
-	SID     []byte
-	Suites  []byte
-	Comp    []byte
-	Exts    []Ext
-	Trail   []byte // bytes after the extensions vector (only EncodedClientHelloInner padding)
-	NoExtField bool // the hello ends after the compression methods (legal before TLS 1.3)
+	Version    uint16
+	Random     []byte // 32
+	SID        []byte
+	Suites     []byte
+	Comp       []byte
+	Exts       []Ext
+	Trail      []byte // bytes after the extensions vector (only EncodedClientHelloInner padding)
+	NoExtField bool   // the hello ends after the compression methods (legal before TLS 1.3)
 }
 
-func U16(v int) []byte { return []byte{byte(v >> 8), byte(v)} }
-func U24(v int) []byte { return []byte{byte(v >> 16), byte(v >> 8), byte(v)} }
+func U16(v int) []byte     { return []byte{byte(v >> 8), byte(v)} }
+func U24(v int) []byte     { return []byte{byte(v >> 16), byte(v >> 8), byte(v)} }
 func LP8(b []byte) []byte  { return append([]byte{byte(len(b))}, b...) }
 func LP16(b []byte) []byte { return append(U16(len(b)), b...) }
 func LP24(b []byte) []byte { return append(U24(len(b)), b...) }
@@ -308,6 +308,15 @@ var HRRRandom = []byte{
 func ServerHelloMsg(random, sid []byte, suite uint16, exts []Ext) []byte {
 	body := Cat(U16(0x0303), random, LP8(sid), U16(int(suite)), []byte{0}, LP16(ExtBlock(exts)))
 	return Cat([]byte{2}, LP24(body))
+}
+
+// ServerFlight12Record is the first record of a TLS 1.2 server flight as OpenSSL / GnuTLS write it: the
+// ServerHello and the handshake messages that follow it (Certificate, ServerHelloDone) in ONE record.
+func ServerFlight12Record(r *rand.Rand, sid []byte, certLen int) []byte {
+	sh := ServerHelloMsg(RandBytes(r, 32), sid, 0xc02f, []Ext{{0xff01, []byte{0}}, {11, []byte{1, 0}}})
+	cert := Cat([]byte{11}, LP24(LP24(LP24(RandBytes(r, certLen)))))
+	done := []byte{14, 0, 0, 0}
+	return Record(22, 0x0303, Cat(sh, cert, done))
 }
 
 func ServerHelloRecord(r *rand.Rand, hrr bool, sid []byte) []byte {
